@@ -21,6 +21,7 @@ EXPLANATION = (
     "(Q R -> M, Q^T Q -> I): the second necessary condition of a true tangent, and the reason covariances differentiate exactly."
     "  (5) Every loss_* constructor's default solve for Bayes' rule has a reverse-mode derivative wherever it has a value (known finding: the time-series loss defaults to an SVD least-squares solve)."
 )
+TRUSTED_VALUE_PRIMITIVES = ("lstsq_svd",)  # R-C16-5 is about the SVD-based solve
 LEVEL = "other"
 TECHNIQUE = "abstract interpretation of custom AD rules with a matrix-structure lattice and a free matrix-word algebra with rewriting; syntactic dominance + interpretation of flag-guarded stop_gradient sites; primitive-table check of zero-differentiability with sibling cross-check"
 LEVEL_TEXT = (
